@@ -102,7 +102,7 @@ func (c *Ctx) implementations(iface *types.Interface, method string) []implCand 
 			if !ok {
 				continue
 			}
-			if _, isI := named.Underlying().(*types.Interface); isI {
+			if _, isI := U(named).(*types.Interface); isI {
 				continue
 			}
 			ptrRecv := map[string]bool{}
@@ -328,7 +328,7 @@ func Load(repo string, patterns []string) (*Ctx, error) {
 					tn := strings.TrimPrefix(fc.Key[1:end], "*")
 					if sp := ctx.spkg[fc.PkgPath]; sp != nil {
 						if obj := sp.Pkg.Scope().Lookup(tn); obj != nil {
-							if _, isIface := obj.Type().Underlying().(*types.Interface); isIface {
+							if _, isIface := U(obj.Type()).(*types.Interface); isIface {
 								ctx.ifaceContracts[fc.PkgPath+"."+tn+"."+fc.Key[end+2:]] = fc
 								fc.IsIface = true
 								continue
@@ -355,7 +355,7 @@ func Load(repo string, patterns []string) (*Ctx, error) {
 			tn := strings.TrimPrefix(fc.Key[1:end], "*")
 			if tp := ctx.typesPkg(fc.PkgPath); tp != nil && end+2 <= len(fc.Key) {
 				if obj := tp.Scope().Lookup(tn); obj != nil {
-					if it, ok := obj.Type().Underlying().(*types.Interface); ok {
+					if it, ok := U(obj.Type()).(*types.Interface); ok {
 						for k := 0; k < it.NumMethods(); k++ {
 							if it.Method(k).Name() == fc.Key[end+2:] {
 								sig = it.Method(k).Type().(*types.Signature)
@@ -371,7 +371,7 @@ func Load(repo string, patterns []string) (*Ctx, error) {
 				pkgPath, tn := splitExternKey(fc.Key[:i])
 				if tp := ctx.typesPkg(pkgPath); tp != nil {
 					if obj := tp.Scope().Lookup(tn); obj != nil {
-						if it, ok := obj.Type().Underlying().(*types.Interface); ok {
+						if it, ok := U(obj.Type()).(*types.Interface); ok {
 							for k := 0; k < it.NumMethods(); k++ {
 								if it.Method(k).Name() == fc.Key[i+1:] {
 									sig = it.Method(k).Type().(*types.Signature)
